@@ -14,12 +14,14 @@ package interp
 
 import (
 	"bytes"
+	"errors"
 	"fmt"
 	"go/ast"
 	"go/token"
 	"io"
 	"reflect"
 	"sort"
+	"strings"
 
 	"github.com/traefik/yaegi/stdlib"
 )
@@ -40,6 +42,25 @@ func vmE2EParse(i *Interpreter, src, name string, inc bool) (ast.Node, error) { 
 func vmE2EAst(i *Interpreter, f ast.Node) (string, *node, error) {
 	pkg, root := vhBuildAST(i, vhProgName())
 	return pkg, root, nil
+}
+
+// vmStripReceiver is stripReceiverFromArgs without its regular expression (the engine does not
+// run the package initialiser which compiles it): `func\(((.*?(, |\)))(.*))` finds the first
+// "func(", then the earliest ", " or ")" after it; what follows is kept.
+func vmStripReceiver(signature string) (string, error) {
+	k := strings.Index(signature, "func(")
+	if k < 0 {
+		return "", errors.New("error while matching method signature")
+	}
+	rest := signature[k+5:]
+	ic, ip := strings.Index(rest, ", "), strings.Index(rest, ")")
+	switch {
+	case ip >= 0 && (ic < 0 || ip < ic):
+		return "func()" + rest[ip+1:], nil
+	case ic >= 0:
+		return "func(" + rest[ic+2:], nil
+	}
+	return "", errors.New("error while matching method signature")
 }
 
 // vhAstMk makes a node the way ast.go's addChild does.
@@ -104,6 +125,21 @@ func vhHost(rec *[]int, a, b int) map[string]interface{} {
 				out(-1)
 			}
 		},
+		// what io.Copy does: a reader that also has WriteTo is asked to write itself
+		"Copy": func(r io.Reader) {
+			var sink vhSink
+			if wt, ok := r.(io.WriterTo); ok {
+				n, _ := wt.WriteTo(&sink)
+				out(1)
+				out(int(n))
+			} else {
+				buf := make([]byte, 4)
+				n, _ := r.Read(buf)
+				out(2)
+				out(n)
+			}
+			out(sink.total)
+		},
 		"Write": func(w io.Writer) {
 			n, err := w.Write([]byte{1, 2, 3})
 			out(n)
@@ -112,6 +148,16 @@ func vhHost(rec *[]int, a, b int) map[string]interface{} {
 			}
 		},
 	}
+}
+
+// vhSink is the writer host.Copy hands to a WriteTo method.
+type vhSink struct{ total int }
+
+func (s *vhSink) Write(p []byte) (int, error) {
+	for _, c := range p {
+		s.total += int(c)
+	}
+	return len(p), nil
 }
 
 func vh_E2E() {
@@ -137,6 +183,10 @@ func vh_E2E() {
 		}
 		i.binPkg[pk] = tab
 		i.pkgNames[pk] = pk
+	}
+	// the composed wrappers (a reader with WriteTo, a writer with ReadFrom, ...)
+	for k, v := range stdlib.MapTypes {
+		i.mapTypes[k] = v
 	}
 	vReach("E2E")
 	_, err := i.Eval(vhPrograms[name])
